@@ -56,7 +56,7 @@ def py_arg(arg, fn):
     return "?", arg, "unknown"
 
 
-def rule_sig(ctx, R):
+def rule_sig(ctx, R, only=None):
     py, tu = ctx.py, ctx.cx
     sites = call_sites(py)
     ctx.need(len(sites) >= 11, R, "found %d engineexport_* call sites in the package (reference: 11)" % len(sites))
@@ -75,12 +75,16 @@ def rule_sig(ctx, R):
                   "the C function takes %d parameters: every later argument is read from the wrong slot"
                   % len(f.params), nontrivial=False)
         for i, (a, p) in enumerate(zip(call.args, f.params)):
+            if only is not None and p.get("name") not in only:
+                continue
             ct = p.get("type", {}).get("qualType", "")
             pt, payload, form = py_arg(a, fn)
             okk = pt.replace(" ", "") == ct.replace(" ", "")
             ctx.check(okk, R, a, q, "%s arg %d (%s %s)" % (name, i, ct, p.get("name")),
                       "%s <- %s" % (ct, pyfe.src(a)[:60]),
                       "C parameter `%s %s` receives %s (%s)" % (ct, p.get("name"), pt, pyfe.src(a)[:60]))
+    if only is not None:
+        return
     # restype for non-int returns
     restypes = {}
     for m in py.mods.values():
@@ -105,6 +109,10 @@ def rule_sig(ctx, R):
 
 
 # ------------------------------------------------------------------------------------------------ lengths
+class LengthChanged(idxmod.Unknown):
+    """the expression is known NOT to keep the length the engine is told about"""
+
+
 class PyLen:
     """length of a Python sequence expression as a polynomial over opaque `len(...)`/size atoms"""
 
@@ -152,8 +160,13 @@ class PyLen:
             base = nm.split(".")[-1]
             if base == "range" and len(e.args) == 1:
                 return self.scalar(e.args[0], fn, env, depth + 1)
-            if base in ("convert", "copy") and isinstance(e.func, ast.Attribute):
+            if base in ("convert", "copy", "astype", "flatten", "ravel", "tolist") and isinstance(e.func, ast.Attribute):
                 return self.length(e.func.value, fn, env, depth + 1)   # length-preserving
+            if base in ("unique", "set", "frozenset", "filter", "compress", "nonzero", "trim_zeros", "extract", "delete",
+                        "flatnonzero", "argwhere", "union1d", "intersect1d", "setdiff1d"):
+                raise LengthChanged("%s(...) returns a sequence whose length is not that of its argument" % nm)
+            if base in ("asarray", "ascontiguousarray", "asfarray", "sorted", "sort", "float64", "abs", "fabs") and e.args:
+                return self.length(e.args[0], fn, env, depth + 1)
             if base in ("UnitArray", "array", "list", "tuple", "deepcopy") and e.args:
                 return self.length(e.args[0], fn, env, depth + 1)
             if base == "zeros" and e.args:
@@ -324,6 +337,10 @@ def rule_extent(ctx, R, I, ptr_req):
                     got = pl.scalar(payload, fn, {})
                 else:
                     got = pl.length(payload, fn, {})
+            except LengthChanged as e:
+                ctx.violation(R, a, q, "%s(%s) <- %s" % (name, pn, pyfe.src(a)[:70]), "the engine reads %r elements through this "
+                              "pointer, but the buffer is built from %s: a shorter buffer is read past its end" % (want, e))
+                continue
             except idxmod.Unknown as e:
                 ctx.error(R, "length of the Python buffer for %s(%s) not recognised: %s" % (name, pn, e))
             mp = dict(symmap)
